@@ -347,6 +347,8 @@ class StubsLib(StubsBase):
             return () if t.is_scalar else t.sec.shape
         if name == "ndim":
             return 0 if t.is_scalar else t.sec.ndim
+        if name == "size":
+            return 1 if t.is_scalar else A.shape_prod(t.sec.shape)
         if name == "isclose":
             return Stub(lambda c, other, atol=None: self.time_isclose(c, t, other, atol), "Time.isclose")
         if name in ("isot", "iso"):
